@@ -4,7 +4,7 @@ from kv import Case, xn, xb, xl, xlist, xopt, xbool
 
 ID = "C07"
 MODULE = "C07"
-IMPORTS = "Bytes RustInt Http1Read Http1ReadProofs Http1ReadParseProofs"
+IMPORTS = "Bytes RustInt Http1Read Http1ReadProofs Http1ReadParseProofs Http1ReadLocalProofs"
 PROFILES = ("dev", "nochk")
 KERNEL_SAMPLE = 30
 THEOREMS = []   # filled in below (kept at the end of the file for readability)
@@ -450,6 +450,10 @@ THEOREMS = [
      r"forall https dh (g : greq) extra host auth path query, greq_ok g = true -> g_host dh g = Some host -> parse_uri https host (g_target g) = Some (auth, path, query) -> parse_request https dh (print_head g ++ extra) = Ok (mk_request (g_method g) path query (if g_v11 g then 11 else 10) (g_hmap g) auth extra)"),
     ("schedule_independent",
      r"forall grow1 grow2 mode1 mode2 https dh (max_len : nat) limit (g : greq) rest (sched1 sched2 : list nat), grow_ok grow1 -> grow_ok grow2 -> sched_pos sched1 -> sched_pos sched2 -> greq_ok g = true -> (length (print_head g) <= max_len)%nat -> expect https dh limit g rest <> None -> (NEED <= length rest)%nat -> (length (print_head g) + NEED <= sum_sched sched1)%nat -> (length (print_head g) + NEED <= sum_sched sched2)%nat -> exists sv1 sv2, serve grow1 mode1 https dh max_len limit (print_head g ++ rest) sched1 = Ok sv1 /\ serve grow2 mode2 https dh max_len limit (print_head g ++ rest) sched2 = Ok sv2 /\ observed sv1 = observed sv2 /\ observed sv1 <> None".replace("NEED", NEED)),
+    ("segmentation_blind",
+     r"forall grow mode https dh (max_len : nat) limit stream (sched : list nat), grow_ok grow -> sched_pos sched -> result_view (serve grow mode https dh max_len limit stream sched) = serve_spec mode https dh max_len limit (firstn (sum_sched sched) stream)"),
+    ("schedule_independent_any_stream",
+     r"forall grow1 grow2 mode https dh (max_len : nat) limit stream (sched1 sched2 : list nat), grow_ok grow1 -> grow_ok grow2 -> sched_pos sched1 -> sched_pos sched2 -> firstn (sum_sched sched1) stream = firstn (sum_sched sched2) stream -> result_view (serve grow1 mode https dh max_len limit stream sched1) = result_view (serve grow2 mode https dh max_len limit stream sched2)"),
     ("head_limit",
      r"forall grow mode https dh (max_len : nat) limit stream (sched : list nat), contains_two_newlines (firstn max_len stream) = false -> exists e, serve grow mode https dh max_len limit stream sched = Err e /\ " + ERRS),
     ("stalled_head",
